@@ -27,6 +27,9 @@ CLAIMED = {
  "C05": ("exploration", "reference-model monitor + linearizability checker over recorded reply histories",
    "Sequential SETCLUSTER/SETREPL sequences against a reference model with unique message contents (routing probes and INFOREPL identify the installed message); concurrent deliveries on a multi-thread runtime checked for linearizability of replies, epoch monotonicity and routing-not-older-than-epoch.",
    "section 2, C05"),
+ "C08": ("fault_enumeration", "exactly-once / reply-origin checker over recorded request-reply histories with injected connection faults",
+   "The real backend sender stack over in-memory byte pipes to a scripted backend that fragments, stalls and breaks connections at every position (before read, mid-request, after execute, mid-reply, refused reconnect) under all batching strategies and connection counts; plus real TCP sessions with fragmented pipelines. Every request must end with exactly one result whose payload is joined with the backend's exchange log.",
+   "section 2, C08"),
  "C09": ("exploration", "differential monitor: independent CRC16/hash-tag model + backend execution logs",
    "Generated slot layouts installed through UMCTL SETCLUSTER on a real proxy; random/binary/brace/slot-targeted keys; every probe is judged by an independent slot model and by which FakeRedis node executed what.",
    "section 2, C09"),
